@@ -22,11 +22,13 @@ func checkC01(w *World, r *Report) {
 	r.Rule("R01.2", "handshake read-ahead is handed on to the next layer", 6)
 	r.Rule("R01.3", "pipe wiring and copy loops", 2)
 	r.Rule("R01.4", "multiplexer configuration admissible", 2)
+	r.Rule("R01.5", "websocket Write splits without gaps or overlaps", 1)
 
 	c01Reads(w, r)
 	c01ReadAhead(w, r)
 	ruleR01_3(w, r)
 	c01Smux(w, r)
+	c01WsWrite(w, r)
 }
 
 // isLenOf: v is len(x) for x == target.
@@ -429,4 +431,67 @@ func c01Smux(w *World, r *Report) {
 	if n == 0 {
 		r.Undecided("R01.4", "call:smux.Client/Server", "-", "no smux session construction found")
 	}
+}
+
+// c01WsWrite: R01.5 — the websocket Write splits the caller's bytes into
+// messages without gaps or overlaps: the prefix sent is p[:K] and the loop
+// continues with p[K:] for the same K; the whole remainder is sent when it is
+// not larger than K; the byte count reported is len(p) at entry.
+func c01WsWrite(w *World, r *Report) {
+	m := w.Method("internal/streams", "WebsocketTunnelConnection", "Write")
+	fn := w.SSAFunc(m)
+	key := "method:(*streams.WebsocketTunnelConnection).Write|chunking"
+	if fn == nil || len(fn.Params) < 2 {
+		r.Undecided("R01.5", key, "-", "anchor unresolved")
+		return
+	}
+	var sentHigh, restLow []int64
+	wholeSent := false
+	allInstrs(fn, func(in ssa.Instruction) {
+		sl, ok := in.(*ssa.Slice)
+		if !ok {
+			return
+		}
+		if sl.High != nil && sl.Low == nil {
+			if v, ok := constIntVal(sl.High); ok {
+				sentHigh = append(sentHigh, v)
+			}
+		}
+		if sl.Low != nil && sl.High == nil {
+			if v, ok := constIntVal(sl.Low); ok {
+				restLow = append(restLow, v)
+			}
+		}
+	})
+	// a WriteMessage call whose payload is the (phi of the) buffer itself
+	for _, c := range callsIn(fn) {
+		f := sCallee(c)
+		if f != nil && f.Name() == "WriteMessage" {
+			a := c.Common().Args[len(c.Common().Args)-1]
+			if _, isSlice := a.(*ssa.Slice); !isSlice {
+				wholeSent = true
+			}
+		}
+	}
+	bad := ""
+	if len(sentHigh) != 1 || len(restLow) != 1 {
+		bad = fmt.Sprintf("chunking idiom not recognised (sent prefixes %v, continuations %v)", sentHigh, restLow)
+	} else if sentHigh[0] != restLow[0] {
+		bad = fmt.Sprintf("a message carries p[:%d] but the loop continues with p[%d:]: bytes are %s", sentHigh[0], restLow[0], mapStr(sentHigh[0] < restLow[0], "dropped")+mapStr(sentHigh[0] > restLow[0], "sent twice"))
+	} else if !wholeSent {
+		bad = "the final remainder is never sent as a whole"
+	}
+	// returned count = len(p) at entry
+	okCount := false
+	allInstrs(fn, func(in ssa.Instruction) {
+		if ret, ok := in.(*ssa.Return); ok && len(ret.Results) == 2 && isConstNil(ret.Results[1]) {
+			if isLenOf(ret.Results[0], fn.Params[1]) {
+				okCount = true
+			}
+		}
+	})
+	if bad == "" && !okCount {
+		bad = "on success Write does not report len(p) of the caller's buffer"
+	}
+	r.Check(bad == "", "R01.5", key, w.Pos(m.Pos()), "messages carry p[:K], the loop continues with p[K:], the remainder is sent whole, len(p) is reported", bad)
 }
